@@ -78,7 +78,10 @@ def drain_cases(draw):
     return {'transport': draw(st.sampled_from(['popen', 'popen', 'pty'])), 'text_mode': draw(st.booleans()),
             'size': draw(st.sampled_from([0, 1, 7, 300, 1500, 3000])), 'maxread': draw(st.sampled_from([1, 3, 7, 100, 2000])),
             'wait': draw(st.booleans()), 'style': draw(st.sampled_from(['expect_eof', 'rnb', 'read'])),
-            'logs': sorted(draw(st.sets(st.sampled_from(['logfile', 'logfile_read']), min_size=1, max_size=2)))}
+            'logs': sorted(draw(st.sets(st.sampled_from(['logfile', 'logfile_read']), min_size=1, max_size=2))),
+            # the output stops inside a multi-byte character (unicode mode, lenient error handlers): whatever the
+            # decoder makes of the rest at the end of the stream, delivered text and logged text stay the same thing
+            'tail': draw(st.sampled_from([None, None, 'replace', 'ignore']))}
 
 
 def check_drain(case, col=None):
@@ -92,10 +95,15 @@ def check_drain(case, col=None):
     body = ('l\xe9-' * (case['size'] // 3 + 1))[:case['size']] if text_mode else 'abc-' * (case['size'] // 4 + 1)
     body = body[:case['size']]
     data = body.encode('utf-8')
+    tail = case.get('tail') if text_mode else None
+    if tail:
+        data += b'\xe2\x82'
     actions = ([['w', data.hex()]] if data else []) + [['exit', 0]]
     kw = {'maxread': case['maxread'], 'timeout': 20}
     if text_mode:
         kw['encoding'] = 'utf-8'
+    if tail:
+        kw['codec_errors'] = tail
     if case['transport'] == 'popen':
         child, ps = peers.popen_peer(actions, record=False, wait_ready=False, **kw)
     else:
@@ -125,7 +133,9 @@ def check_drain(case, col=None):
         except TIMEOUT:
             raise Violation('drain-timeout', '%s: TIMEOUT' % where)
         want = body if text_mode else data
-        if got != want:
+        if tail and got.startswith(want) and got[len(want):] in ('', '\ufffd'):
+            pass
+        elif got != want:
             raise Violation('drain-content', '%s: delivered %d characters, the child wrote %d' % (where, len(got), len(want)))
         for name, lg in logs.items():
             joined = lg.joined(T())
@@ -143,6 +153,8 @@ def check_drain(case, col=None):
         ps.cleanup()
     if col is not None:
         col.label('drain-after-exit:' + case['transport'])
+        if tail:
+            col.label('drain-ends-inside-a-character')
         col.case(case, case['size'] > case['maxread'])
 
 
